@@ -1317,6 +1317,7 @@ class C13(DirectSpec):
         fl = [(f"component.{c}.{t}", 1, "component exercised") for c in comps for t in ("ties", "no_ties")]
         fl += [(f"twin_engine.{e}", 1, "index-stable engine on a level of a run twin") for e in ("de", "shade", "cma", "cma_warm", "local", "lhs", "sobol")]
         fl += [(f"component.{c}.k{e}={v}.no_ties", 1, "boundary size of a top-k / elite selection") for c, e in (("topk", ""), ("select_new_population", "_elites")) for v in ("0", "n", "between")]
+        fl += [("component.topk.more_than_64_individuals.no_ties", 10, "top-k of more than 64 individuals"), ("run_twins_under_the_precision_stop_condition", 3, "whole-run twins stopped by SingularProblemPrecisionReached")]
         fl += [("run_twins", 20, "whole-run twins"), ("run_twins_with_result_caching_on_both_formulations", 5, "whole-run twins with FunctionProblem(use_cache=True) on both sides")]
         return fl
 
